@@ -190,28 +190,38 @@ impl Storage {
             let writer = writer.clone();
             let perf_counter = perf_counter.clone();
             threadpool.execute(move || {
-                let wal_data = writer.load(&wal_file).unwrap();
-                perf_counter.disk_read_wal(wal_data.len() as u64);
-                let wal_segment = WalSegment::deserialize(&wal_data).unwrap();
-                log::info!(
-                    "Found wal segment {} with id {} and {} rows in {} tables",
-                    wal_file.display(),
-                    wal_segment.id,
-                    wal_segment
-                        .data
-                        .tables
-                        .values()
-                        .map(|t| t.len())
-                        .sum::<usize>(),
-                    wal_segment.data.tables.len(),
-                );
-                tx.send((wal_file, wal_segment, wal_data.len() as u64)).unwrap();
+                // Errors are handed to the receiving side: a panic in here would only kill the
+                // pool thread and leave `recover` waiting for this segment forever.
+                let load = || -> Result<(WalSegment<'static>, u64), String> {
+                    let wal_data = writer.load(&wal_file).map_err(|e| e.to_string())?;
+                    perf_counter.disk_read_wal(wal_data.len() as u64);
+                    let wal_segment =
+                        WalSegment::deserialize(&wal_data).map_err(|e| e.to_string())?;
+                    log::info!(
+                        "Found wal segment {} with id {} and {} rows in {} tables",
+                        wal_file.display(),
+                        wal_segment.id,
+                        wal_segment
+                            .data
+                            .tables
+                            .values()
+                            .map(|t| t.len())
+                            .sum::<usize>(),
+                        wal_segment.data.tables.len(),
+                    );
+                    Ok((wal_segment, wal_data.len() as u64))
+                };
+                let result = load();
+                tx.send((wal_file, result)).unwrap();
             });
         }
 
         let mut wal_size = 0;
         let mut wal_segments = Vec::new();
-        for (path, wal_segment, size) in rx.iter().take(num_wal_files) {
+        for (path, result) in rx.iter().take(num_wal_files) {
+            let (wal_segment, size) = result.unwrap_or_else(|err| {
+                panic!("Failed to load wal segment {}: {}", path.display(), err)
+            });
                 if wal_segment.id < earliest_uncommited_wal_id {
                     if readonly {
                         log::info!("Skipping wal segment {}", path.display());
